@@ -7,10 +7,13 @@ package block
 //@ import io github.com/nspcc-dev/neo-go/pkg/io
 
 // Safety frame of the header decoder as used by other decoders.
+//@ prop C06,C17
 //@ func (*Header).DecodeBinary
 //@ requires b != nil && io.validR(br)
 //@ modifies *b, br.Err, br.uv, br.r.pos
 //@ ensures old(br.r.pos) <= br.r.pos && io.validR(br)
+// (C06, C17) exactly one witness: the witness count behind the hashable part (a variable-length integer) is 1 in every header that decodes.
+//@ ensures[onewitness] old(br.Err) == nil && br.Err == nil ==> io.decvar(br.r.in, old(br.r.pos) + hashableLen(b)) == 1
 
 //@ import util github.com/nspcc-dev/neo-go/pkg/util
 // Identity of a header (the cached hash is a function of the header object).
